@@ -1,6 +1,6 @@
 // ---- strings, errors, parsing: assumed contracts (trusted base) ----
 pub mod str_axioms {
-    use vstd::prelude::*;
+    use ::vstd::prelude::*;
     verus! {
     // pattern matching on &str uses str equality; String deref uses views.  One axiom relates the two.
     pub broadcast axiom fn axiom_str_eq_is_view_eq(a: &str, b: &str)
@@ -11,9 +11,9 @@ pub mod str_axioms {
 verus! {
 
 #[verifier::external_body]
-pub struct Error { _p: core::marker::PhantomData<()> }
+pub struct Error { _p: ::core::marker::PhantomData<()> }
 
-pub type Result<T> = core::result::Result<T, Error>;
+pub type Result<T> = ::core::result::Result<T, Error>;
 
 impl Ident {
     #[verifier::external_body]
@@ -37,7 +37,7 @@ impl TokenStream {
     { unimplemented!() }
 }
 
-pub assume_specification [<std::string::String as std::convert::AsRef<str>>::as_ref] (s: &std::string::String) -> (r: &str)
+pub assume_specification [<::std::string::String as ::std::convert::AsRef<str>>::as_ref] (s: &::std::string::String) -> (r: &str)
     ensures r@ == s@;
 
 // the result of parsing a token stream is a function of the tokens (whatever syn does, it does it deterministically)
